@@ -133,6 +133,30 @@ class Run:
         res["ok"] = ("No error has been found" in out) or (simulate is not None and p.returncode == 0)
         return res
 
+    def apalache(self, module, init, inv, length, expect_fail=False, timeout=900, src=None):
+        """Symbolic check with Apalache (inductive invariants over unbounded integers)."""
+        t = time.time()
+        out_dir = os.path.join(self.dir, "apalache-out")
+        cmd = ["apalache-mc", "check", "--out-dir=" + out_dir, "--init=" + init, "--inv=" + inv, "--length=%d" % length,
+               src or (module + ".tla")]
+        try:
+            p = subprocess.run(cmd, cwd=self.dir, capture_output=True, text=True, timeout=timeout)
+        except subprocess.TimeoutExpired:
+            raise Infra("Apalache timeout on %s" % module)
+        finally:
+            shutil.rmtree(out_dir, ignore_errors=True)
+        out = p.stdout + p.stderr
+        ok = "EXITCODE: OK" in out
+        violated = "EXITCODE: ERROR (12)" in out
+        self.mc_runs.append(dict(module=module, cfg="apalache --init=%s --inv=%s --length=%d" % (init, inv, length), states=0,
+                                 transitions=0, wall_s=round(time.time() - t, 1), ok=ok))
+        log("apalache %s init=%s inv=%s length=%d: %s, %.1fs" % (module, init, inv, length,
+                                                             "ok" if ok else ("invariant violated" if violated else "FAILED"), time.time() - t))
+        if not ok and not (expect_fail and violated):
+            raise Infra("Apalache run of %s failed (specification-level error, not a verdict on the code):\n%s"
+                        % (module, "\n".join(out.splitlines()[-40:])))
+        return ok
+
     def mc(self, module, cfg=None, timeout=1800, expect_fail=False, **kw):
         """Model-check the design-level specification (a gate on the oracle itself)."""
         r = self.tlc(module, cfg or module + ".cfg", timeout=timeout, **kw)
